@@ -113,7 +113,7 @@ func (r *DailyRotateRule) OutdatedFiles() []string {
 	}
 
 	var buf strings.Builder
-	boundary := time.Now().Add(-time.Hour * time.Duration(hoursPerDay*r.days)).Format(dateFormat)
+	boundary := time.Now().AddDate(0, 0, -r.days).Format(dateFormat)
 	fmt.Fprintf(&buf, "%s%s%s", r.filename, r.delimiter, boundary)
 	if r.gzip {
 		buf.WriteString(gzipExt)
@@ -197,7 +197,7 @@ func (r *SizeLimitRotateRule) OutdatedFiles() []string {
 
 	// 测试是否有太旧的备份
 	if r.days > 0 {
-		boundary := time.Now().Add(-time.Hour * time.Duration(hoursPerDay*r.days)).Format(fileTimeFormat)
+		boundary := time.Now().AddDate(0, 0, -r.days).Format(fileTimeFormat)
 		boundaryFile := filepath.Join(dir, fmt.Sprintf("%s%s%s%s", prefix, r.delimiter, boundary, ext))
 		if r.gzip {
 			boundaryFile += gzipExt
